@@ -19,11 +19,11 @@ theorem C16_cover (jlo jhi size : Int) (hs : 1 ≤ size) :
   rw [mem_intRange]
   omega
 
-/-- **C16 (the chunk size the code uses is admissible).** On the property's domain — a memory limit
-    that allows at least one wavelength per pass, a non-empty table, a non-empty index range — the
-    step of the loop is at least 1 (and at most `n_wav`), so `C16_cover` applies to it. -/
-theorem C16_chunk_size_pos (nWav : Nat) (ramFl jlo jhi : Int) (hn : 1 ≤ nWav) (hr : 1 ≤ ramFl)
-    (hw : jlo ≤ jhi) : 1 ≤ chunkSize nWav ramFl jlo jhi ∧ chunkSize nWav ramFl jlo jhi ≤ nWav := by
+/-- **C16 (the chunk size the code uses is admissible).** Whatever the memory limit and the window (also an
+    empty or inverted one, also a limit too small for a single wavelength), the step of the loop is at least 1
+    — so `C16_cover` always applies to it — and at most `n_wav` for a non-empty table. -/
+theorem C16_chunk_size_pos (nWav : Nat) (ramFl jlo jhi : Int) :
+    1 ≤ chunkSize nWav ramFl jlo jhi ∧ (1 ≤ nWav → chunkSize nWav ramFl jlo jhi ≤ nWav) := by
   unfold chunkSize
   omega
 
@@ -42,48 +42,32 @@ section window
 variable {K : Type} [LinearOrder K]
 
 namespace Mono
-/-- closed / open window membership with an optional (infinite) end -/
+/-- closed window membership with an optional (infinite) end -/
 def inClosed (wmin wmax : Option K) (v : K) : Prop :=
   (match wmin with | none => True | some m => m ≤ v) ∧ (match wmax with | none => True | some M => v ≤ M)
 
-def inOpen (wmin wmax : Option K) (v : K) : Prop :=
-  (match wmin with | none => True | some m => m < v) ∧ (match wmax with | none => True | some M => v < M)
+theorem inClosed_iff (wmin wmax : Option K) (v : K) : inClosed wmin wmax v ↔ (geMin wmin v ∧ leMax wmax v) := by
+  cases wmin <;> cases wmax <;> simp [inClosed, geMin, leMax]
 end Mono
 
-/-- **C16 (window).** For wavelengths stored strictly decreasing (what `SED.read(order='nu')` returns)
-    and any chunk size `≥ 1`: every emitted index is a valid index whose wavelength lies in the closed
-    window, and every tabulated wavelength strictly inside the window is emitted.  (The code is
-    `wav_min ≤ λ < wav_max`, see `Mono.window_iff`; the property does not fix open / closed at an end
-    that coincides with a tabulated wavelength, so only this sandwich is claimed.) -/
+/-- **C16 (window, exact).** For wavelengths stored strictly decreasing (what `SED.read(order='nu')` returns),
+    any ends (finite or defaulted, between or ON tabulated wavelengths, `wmin = wmax` included, empty or
+    inverted windows included) and any chunk size `≥ 1`: the loop succeeds, every emitted index is a valid
+    index, and index `k` is emitted **iff** `wmin ≤ λ_k ≤ wmax`. -/
 theorem C16_window (ws : List K) (hdec : ws.Pairwise (· > ·)) (wmin wmax : Option K) (size : Int)
     (hs : 1 ≤ size) :
     ∃ L, emitted (windowIdx ws wmin wmax).1 (windowIdx ws wmin wmax).2 size = .ok L ∧
-      (∀ j ∈ L, ∃ (k : Nat) (v : K), j = (k : Int) ∧ ws[k]? = some v ∧ inClosed wmin wmax v) ∧
-      (∀ (k : Nat) (v : K), ws[k]? = some v → inOpen wmin wmax v → (k : Int) ∈ L) := by
+      (∀ j ∈ L, 0 ≤ j ∧ j < ws.length) ∧
+      (∀ (k : Nat) (v : K), ws[k]? = some v → ((k : Int) ∈ L ↔ inClosed wmin wmax v)) := by
   obtain ⟨L, hL, _, hmem, _⟩ := C16_cover (windowIdx ws wmin wmax).1 (windowIdx ws wmin wmax).2 size hs
   refine ⟨L, hL, ?_, ?_⟩
   · intro j hj
     have hb := window_bounds ws wmin wmax
     have hr := (hmem j).mp hj
-    have hk : j.toNat < ws.length := by omega
-    refine ⟨j.toNat, ws[j.toNat], by omega, List.getElem?_eq_getElem hk, ?_⟩
-    have := (window_iff ws hdec wmin wmax j.toNat ws[j.toNat] (List.getElem?_eq_getElem hk)).mp
-      (by constructor <;> omega)
-    obtain ⟨g1, g2⟩ := this
-    constructor
-    · cases wmin <;> simp_all [geMin]
-    · cases wmax with
-      | none => trivial
-      | some M => exact le_of_lt (by simpa [ltMax] using g2)
-  · intro k v hv ho
-    apply (hmem k).mpr
-    apply (window_iff ws hdec wmin wmax k v hv).mpr
-    obtain ⟨o1, o2⟩ := ho
-    constructor
-    · cases wmin with
-      | none => trivial
-      | some m => exact le_of_lt (by simpa using o1)
-    · cases wmax <;> simp_all [ltMax]
+    omega
+  · intro k v hv
+    rw [hmem k, inClosed_iff]
+    exact window_iff ws hdec wmin wmax k v hv
 
 end window
 
@@ -189,13 +173,102 @@ theorem C16_nearest {K : Type} [Field K] [LinearOrder K] [IsStrictOrderedRing K]
         have := hfirst k (absK (w - w0)) hkr (by rw [List.getElem?_map, hk]; rfl)
         rwa [← hrv, absK_eq_abs, absK_eq_abs] at this
 
+/-- **C16 (returned table).** The `filter` column of the returned table has one entry per SED wavelength;
+    entry `k` is the name of file `k` (`MO%03d % (k+1)`) if index `k` was emitted and empty otherwise. -/
+theorem C16_table (n : Nat) (js : List Int) :
+    (monoTable n js).length = n ∧
+    ∀ k : Nat, k < n → (monoTable n js)[k]? = some (if (k : Int) ∈ js then moName k else "") :=
+  ⟨length_monoTable n js, fun k hk => getElem?_monoTable n js k hk⟩
+
+/-- **C16 (whole call).** `convolve_model_dir_monochromatic` as one function of (package, window, memory
+    limit): for wavelengths stored strictly decreasing, at least one SED, SED names that are a rearrangement of the parameter
+    table's names and rectangular flux / error arrays, the call succeeds for **every** window (finite or
+    defaulted ends, on or between tabulated wavelengths, single-wavelength, empty, inverted) and **every**
+    memory limit; it writes the files in increasing index order, each index once; a file exists for index `k`
+    iff `wmin ≤ λ_k ≤ wmax`; every file is the one `C16_rows` describes; and the returned table lists the
+    SED wavelengths with the file name exactly at the emitted indices and an empty name elsewhere. -/
+theorem C16_pipeline {N K : Type} [LinearOrder N] [LinearOrder K] (strip trunc : N → N)
+    (ws aps : List K) (seds : List (SedIn N K)) (ref : List N)
+    (hdec : ws.Pairwise (· > ·)) (hne : seds ≠ [])
+    (hperm : (seds.map (fun s => trunc s.name)).Perm (ref.map strip))
+    (hfl : ∀ j, j < ws.length → ∃ fl, rowsAt aps.length (·.flux) seds j = some fl)
+    (her : ∀ j, j < ws.length → ∃ er, rowsAt aps.length (·.err) seds j = some er)
+    (wmin wmax : Option K) (maxRam : Rat) :
+    ∃ res, monoRun strip trunc ws aps seds ref wmin wmax maxRam = .ok res ∧
+      (res.files.map (·.index)).Pairwise (· < ·) ∧
+      (∀ f ∈ res.files, monoFile strip trunc ws aps seds ref f.index = .ok f) ∧
+      (∀ (k : Nat) (v : K), ws[k]? = some v → ((∃ f ∈ res.files, f.index = k) ↔ inClosed wmin wmax v)) ∧
+      res.tableWav = ws ∧ res.tableFilter.length = ws.length ∧
+      (∀ (k : Nat) (v : K), ws[k]? = some v →
+        (inClosed wmin wmax v → res.tableFilter[k]? = some (moName k)) ∧
+        (¬ inClosed wmin wmax v → res.tableFilter[k]? = some "")) := by
+  have hs := chunkSize_pos ws.length (ramFloor maxRam seds.length aps.length)
+    (windowIdx ws wmin wmax).1 (windowIdx ws wmin wmax).2
+  obtain ⟨L, hL, hvalid, hiff⟩ := C16_window ws hdec wmin wmax _ hs
+  obtain ⟨L', hL', _, _, hpw⟩ := C16_cover (windowIdx ws wmin wmax).1 (windowIdx ws wmin wmax).2 _ hs
+  have hLL : L' = L := by rw [hL] at hL'; exact (Except.ok.inj hL').symm
+  subst hLL
+  obtain ⟨fs, hfs⟩ := monoFilesAt_live strip trunc ws aps seds ref L' (by
+    intro j hj
+    obtain ⟨h0, hn⟩ := hvalid j hj
+    have hjn : j.toNat < ws.length := by omega
+    exact ⟨h0, C16_rows_live strip trunc ws aps seds ref j.toNat hperm hjn (hfl _ hjn) (her _ hjn)⟩)
+  obtain ⟨hmap, hok⟩ := forall₂_index strip trunc ws aps seds ref L' fs
+    (monoFilesAt_spec strip trunc ws aps seds ref L' fs hfs)
+  have hmemf : ∀ k : Nat, (∃ f ∈ fs, f.index = k) ↔ (k : Int) ∈ L' := by
+    intro k
+    rw [← hmap, List.mem_map]
+    constructor
+    · rintro ⟨f, hf, rfl⟩; exact ⟨f, hf, rfl⟩
+    · rintro ⟨f, hf, he⟩; exact ⟨f, hf, by omega⟩
+  refine ⟨{ files := fs, tableWav := ws, tableFilter := monoTable ws.length L' }, ?_, ?_, hok, ?_, rfl,
+    length_monoTable _ _, ?_⟩
+  · have he : seds.isEmpty = false := by cases seds <;> simp_all
+    simp only [monoRun, he, hL, hfs]
+    rfl
+  · have : ((fs.map (·.index)).map (fun (i : Nat) => (i : Int))).Pairwise (· < ·) := by
+      rw [List.map_map]
+      have e : ((fun (i : Nat) => (i : Int)) ∘ fun (f : MonoFile N K) => f.index) = fun f => (f.index : Int) := rfl
+      rw [e, hmap]; exact hpw
+    rw [List.pairwise_map] at this
+    exact this.imp (by intro a b h; omega)
+  · intro k v hv
+    rw [hmemf k]; exact hiff k v hv
+  · intro k v hv
+    have hk : k < ws.length := by
+      by_contra hc
+      rw [List.getElem?_eq_none (by omega)] at hv
+      cases hv
+    have ht := getElem?_monoTable ws.length L' k hk
+    constructor
+    · intro hin
+      rw [ht, if_pos ((hiff k v hv).mpr hin)]
+    · intro hnin
+      rw [ht, if_neg (fun h => hnin ((hiff k v hv).mp h))]
+
+/-- **C16 (whole call, memory limit).** Files and table do not depend on the memory limit at all — for any
+    package and any window (no hypotheses). -/
+theorem C16_pipeline_ram_independent {N K : Type} [LT N] [DecidableLT N] [DecidableEq N] [LT K] [DecidableLT K]
+    (strip trunc : N → N) (ws aps : List K) (seds : List (SedIn N K)) (ref : List N)
+    (wmin wmax : Option K) (r1 r2 : Rat) :
+    monoRun strip trunc ws aps seds ref wmin wmax r1 = monoRun strip trunc ws aps seds ref wmin wmax r2 := by
+  unfold monoRun
+  split
+  · rfl
+  simp only
+  rw [emitted_pos _ _ _ (chunkSize_pos ws.length (ramFloor r1 seds.length aps.length) _ _),
+      emitted_pos _ _ _ (chunkSize_pos ws.length (ramFloor r2 seds.length aps.length) _ _)]
+
 /-! ### Non-vacuity (over ℚ / ℕ-named models) -/
 
-/-- five wavelengths stored decreasing; window `[3, 20]` has one end on a tabulated wavelength -/
+/-- five wavelengths stored decreasing; window `[3, 20]` has both ends on tabulated wavelengths -/
 def c16ExWs : List Rat := [50, 20, 8, 3, 1]
 
 example : c16ExWs.Pairwise (· > ·) := by decide
-example : windowIdx c16ExWs (some 3) (some 20) = (2, 3) := by decide
+example : windowIdx c16ExWs (some 3) (some 20) = (1, 3) := by decide
+-- a single-wavelength window, an empty one, an inverted one
+example : windowIdx c16ExWs (some 8) (some 8) = (2, 2) ∧ windowIdx c16ExWs (some 9) (some 19) = (2, 1) ∧
+    windowIdx c16ExWs (some 20) (some 3) = (3, 1) := by decide
 example : windowIdx c16ExWs (some 2) (some 25) = (1, 3) := by decide
 example : windowIdx c16ExWs none none = (0, 4) := by decide
 -- chunk sizes 1, 2, 3 all emit 1, 2, 3
@@ -204,8 +277,11 @@ example : emitted 1 3 1 = .ok [1, 2, 3] ∧ emitted 1 3 2 = .ok [1, 2, 3] ∧ em
 example : chunks 1 3 2 = .ok [(1, 2), (3, 3)] := by decide
 example : 1 ≤ chunkSize 5 2 1 3 ∧ chunkSize 5 2 1 3 = 2 := by decide
 example : ramFloor (3 * 8 * 4 * 2 / 1024 ^ 3) 4 2 = 3 := by decide +kernel
--- an empty index range makes the step 0, which Python's `range` rejects
-example : emitted 2 1 (chunkSize 5 2 2 1) = .error .zeroStep := by decide
+-- an empty or inverted index range: the step is 1 and nothing is emitted
+example : chunkSize 5 2 2 1 = 1 ∧ emitted 2 1 (chunkSize 5 2 2 1) = .ok [] ∧ emitted 3 1 (chunkSize 5 2 3 1) = .ok [] := by
+  decide
+-- the table of a 5-wavelength package after emitting 1, 2, 3
+example : monoTable 5 [1, 2, 3] = ["", "MO002", "MO003", "MO004", ""] := by decide
 -- nearest: 8 is nearest to 10; a tie (2 between 3 and 1) goes to the first index
 example : nearestIdx c16ExWs 10 = .ok 2 ∧ nearestIdx c16ExWs 2 = .ok 3 := by decide +kernel
 
@@ -220,5 +296,11 @@ example : (c16ExSeds.map (fun s => id s.name)).Perm ([3, 1, 2].map id) := by dec
 -- the hypotheses of `C16_rows_live` are met, hence so is the hypothesis of `C16_rows`
 example : ∃ f, monoFile id id [9, 5, 2] [100, 200] c16ExSeds [3, 1, 2] 1 = .ok f :=
   C16_rows_live id id [9, 5, 2] [100, 200] c16ExSeds [3, 1, 2] 1 (by decide) (by decide) ⟨_, rfl⟩ ⟨_, rfl⟩
+
+-- … and of `C16_pipeline` (every index reaches every row)
+example : ∀ j, j < ([9, 5, 2] : List Rat).length → ∃ fl, rowsAt 2 (·.flux) c16ExSeds j = some fl := by
+  intro j hj
+  have : j = 0 ∨ j = 1 ∨ j = 2 := by simp at hj; omega
+  rcases this with rfl | rfl | rfl <;> exact ⟨_, rfl⟩
 
 end SF
